@@ -240,6 +240,52 @@ BadFields(r) ==
          {f \in CmpFields(r.rec, r.fmt, r.v) : ~SameField(f, r.got[f], e[f])}
 
 (***************************************************************************)
+(* Several values through one encoder/decoder instance.                    *)
+(* The boundaries never carry one value at a time: a state snapshot or an  *)
+(* export holds the whole pinset, RPC and REST answers are lists.  A       *)
+(* sequence case is  [rec, fmt, items, pre]:                               *)
+(*   rec = "Pin", fmt = "snapshot-fresh"    items stored under distinct    *)
+(*         CIDs (slot i), dsstate Marshal -> Unmarshal into a fresh        *)
+(*         sync-wrapped MapDatastore (what consensus/raft restores into);  *)
+(*         fmt = "snapshot-nonempty"  the target already holds pre[i]      *)
+(*         under the CID of slot i (a stale pinset: every slot is          *)
+(*         overwritten; what a merge leaves behind is C01/C14's business); *)
+(*         fmt = "export"  List -> JSON lines -> Decode -> Add;            *)
+(*   any rec, fmt = msgpack | json: the list []*rec as one RPC reply /     *)
+(*         one REST body.                                                  *)
+(* Observation: ok (the whole restore/decode succeeded), got[i] = [ok,     *)
+(* got] for slot/index i (ok = FALSE: missing or undecodable), extra =     *)
+(* number of restored values that belong to no slot.  Every item is judged *)
+(* like a single value, against Proj of the item stored in ITS slot.       *)
+(***************************************************************************)
+StateFormats == {"snapshot-fresh", "snapshot-nonempty", "export"}
+ItemFmt(fmt) == CASE fmt \in {"snapshot-fresh", "snapshot-nonempty"} -> "pb" [] OTHER -> fmt
+SeqFormats(rec) == IF rec = "Pin" THEN StateFormats \cup RpcFormats ELSE RpcFormats
+
+\* the stale content of a non-empty target: slot i holds the value of the next slot
+Stale(items) == [i \in 1..Len(items) |-> items[(i % Len(items)) + 1]]
+
+\* values sequences are drawn from: single-field variations of every base; a decoder that refuses origins
+\* outright (known) would hide everything else in a JSON stream, so origins only travel in snapshots
+SeqPool(rec, fmt) == {v \in Values(rec, 1) : (rec = "Pin" /\ fmt \in {"export", "msgpack", "json"}) => v.origins = <<>>}
+\* all ordered pairs (equal values = equal encoded size; one-field variations = same or nearly same size;
+\* different bases = different sizes) over the variations of the minimal base and all bases
+PairPool(rec, fmt) == {v \in Singles(Dom(rec), MinBase(rec)) \cup Bases(rec) : v \in SeqPool(rec, fmt)}
+
+SeqCase(rec, fmt, items) ==
+    [rec |-> rec, fmt |-> fmt, items |-> items, pre |-> IF fmt = "snapshot-nonempty" THEN Stale(items) ELSE <<>>]
+
+BadItems(r) ==
+    IF ~r.ok THEN {[i |-> 0, fields |-> {"<error>"}]}
+    ELSE (IF Len(r.got) # Len(r.items) THEN {[i |-> 0, fields |-> {"<count>"}]} ELSE {})
+         \cup (IF r.extra # 0 THEN {[i |-> 0, fields |-> {"<extra>"}]} ELSE {})
+         \cup {[i |-> i, fields |-> BadFields([rec |-> r.rec, fmt |-> ItemFmt(r.fmt), v |-> r.items[i],
+                                               ok |-> r.got[i].ok, got |-> r.got[i].got])] :
+                 i \in {j \in 1..(IF Len(r.got) < Len(r.items) THEN Len(r.got) ELSE Len(r.items)) :
+                            BadFields([rec |-> r.rec, fmt |-> ItemFmt(r.fmt), v |-> r.items[j],
+                                       ok |-> r.got[j].ok, got |-> r.got[j].got]) # {}}}
+
+(***************************************************************************)
 (* Decoder totality: the only outcomes allowed for arbitrary bytes.        *)
 (***************************************************************************)
 AllowedOutcomes == {"error", "value"}      \* value = decoded and re-encodable
